@@ -154,10 +154,12 @@ def generate_and_match(env, key, case):
     used = [False] * len(gens)
     matches = {}
     missing = []
+    trivial_refs = set()
     for ri, (name, samples, rc) in enumerate(ref['scalar']):
         rform = dict(canon(rc.expression))
         req = rc.equality_or_inequality == 'equality'
         if trivial(env, rform):
+            trivial_refs.add(ri)
             continue
         hit = None
         for gi, c in enumerate(gens):
@@ -173,6 +175,7 @@ def generate_and_match(env, key, case):
             matches[ri] = gens[hit]
     extra = [gens[gi] for gi in range(len(gens)) if not used[gi] and not trivial(env, gforms[gi])]
     return dict(f=f, p=p, ref=ref, matches=matches, missing=missing, extra=extra, trace=trace, pep=pep,
+                trivial_refs=trivial_refs,
                 npts_before=npts_before)
 
 
